@@ -323,6 +323,7 @@ func walk(r *simkit.Run, prop string) {
 	}
 	// A run may start from a database somebody else created: inline UNIQUE constraints, upper-case
 	// type names. Those catalogs are ones Atlas' own planner never writes.
+	var constraintIdx [][2]string // (table, index) pairs that stand for UNIQUE constraints of a foreign database
 	if t.Chance("legacy-start", 1, 3) {
 		legacy := &Sch{}
 		for i, n := 0, t.Range("legacy-tables", 1, 2); i < n; i++ {
@@ -409,6 +410,7 @@ func walk(r *simkit.Run, prop string) {
 							r.Probe("legacy-inline-unique-constraint")
 							// From now on the model describes what is wanted, not how the legacy DDL wrote it.
 							ix.Inline = false
+							constraintIdx = append(constraintIdx, [2]string{tb.Name, ix.Name})
 						}
 					}
 				}
@@ -432,6 +434,20 @@ func walk(r *simkit.Run, prop string) {
 		// result is a schema SQLite itself accepts), occasionally a completely fresh schema.
 		var edits []string
 		next := desired.Clone()
+		// The first step on a foreign database often touches what is special about it: the index
+		// that stands for a UNIQUE constraint stops being unique, under the very same name.
+		if step == 1 && len(constraintIdx) > 0 && t.Chance("constraint-index-stops-being-unique", 1, 3) {
+			c := constraintIdx[t.Draw("constraint-index", len(constraintIdx))]
+			if tb := next.Table(c[0]); tb != nil {
+				for _, ix := range tb.Idx {
+					if ix.Name == c[1] {
+						ix.Unique = false
+						edits = append(edits, "constraint-index-stops-being-unique")
+						r.Probe("constraint-index-stops-being-unique")
+					}
+				}
+			}
+		}
 		if step > 1 && t.Chance("fresh-schema", 1, 12) {
 			next = &Sch{}
 			edits = append(edits, "fresh")
